@@ -970,6 +970,16 @@ def native_backlog(rp, watchdog_ms=22000):
     return {'cmd': cmd, 'out': out, 'hung': out.startswith('ok hung'), 'returned_ms': int(m.group(1)) if m else None, 'ok': out.startswith('ok')}
 
 
+def native_segment_uncreatable(rp, watchdog_ms=23000):
+    """the segment cannot be created for the whole run (its directory is read-only) and the poller dies after ten reports (panic at its
+    11th visit, ~10 s in): whatever the writer thread does about a segment it cannot create (die at once, as the unchanged tree does, or
+    keep trying), the daemon must be gone shortly after the poller's death (deadline: 13 s after the start of the 11th poll)"""
+    cmd = 'threads %d 11 1 %d 0 0 0 0 0 0 1' % (SITES[('poller', 'loop')], watchdog_ms)
+    out = rp.ask(cmd)
+    m = re.search(r'returned_ms=(\d+)', out)
+    return {'cmd': cmd, 'out': out, 'hung': out.startswith('ok hung'), 'returned_ms': int(m.group(1)) if m else None, 'ok': out.startswith('ok') and 'not_isolated' not in out}
+
+
 def native_fault(rp, who, where, nth, panic, watchdog_ms=10000, notify_delay_ms=0, chrony_answers=0):
     """chrony_answers > 0: a stand-in chronyd answers that many tracking requests and then disappears (a chronyd restart): the polls
     after that are missed polls inside the grace period"""
@@ -1014,6 +1024,11 @@ def native_only(ck, why, tier):
         runs.append(nat)
         if nat['hung']:
             ck.violation('daemon-lingers', 'the writer thread is held up for 11.5 s while the poller keeps reporting, then the poller dies: %d ms after the start the real thread_manager::run had still not returned - the abort message did not reach the writer behind (or because of) its backlog and the daemon lingers' % 22000, {'cmd': nat['cmd'], 'native': nat['out']})
+    if not ck.violations:
+        nat = native_segment_uncreatable(rp)
+        runs.append(nat)
+        if nat['hung']:
+            ck.violation('daemon-lingers', 'the segment cannot be created (read-only directory) and the poller dies after ten reports: 23000 ms after the start the real thread_manager::run had still not returned - the writer thread is busy with the segment it cannot create and does not act on the abort', {'cmd': nat['cmd'], 'native': nat['out']})
     if not ck.violations:
         nat = native_spawn_refused(rp)
         runs.append(nat)
@@ -1166,6 +1181,11 @@ def run_check(tier, seed):
         native_runs.append(nat)
         if nat['hung']:
             ck.violation('daemon-lingers', 'the writer thread is held up for 11.5 s while the poller keeps reporting, then the poller dies: %d ms after the start the real thread_manager::run had still not returned - the abort message did not reach the writer behind (or because of) its backlog and the daemon lingers' % 22000, {'cmd': nat['cmd'], 'native': nat['out']})
+    if not ck.violations:
+        nat = native_segment_uncreatable(rp)
+        native_runs.append(nat)
+        if nat['hung']:
+            ck.violation('daemon-lingers', 'the segment cannot be created (read-only directory) and the poller dies after ten reports: 23000 ms after the start the real thread_manager::run had still not returned - the writer thread is busy with the segment it cannot create and does not act on the abort', {'cmd': nat['cmd'], 'native': nat['out']})
     if not ck.violations:
         nat = native_spawn_refused(rp, DEADLINE_MS)
         native_runs.append(nat)
